@@ -32,6 +32,7 @@ pub fn abort_poll() -> bool {
         s.ensure_task(me);
         if s.flipped {
             s.tasks[me].got_true = true;
+            s.true_polls += 1;
         }
         s.flipped
     })
